@@ -24,166 +24,166 @@ Open Scope Z_scope.
 Definition ts_max : Z := 281474976710655.  (* Timestamp::MAX_VALUE = 2^48 - 1 *)
 
 (* Timestamp::checked_add(self, x: Duration): millis = x.as_millis(); None if millis > MAX - self *)
-Definition checked_add (v d : Z) : option Z :=
+Definition ts_checked_add (v d : Z) : option Z :=
   if d >? ts_max - v then None else Some (v + d).
 
 (* AssociationHandler::get_current_time of the engine: c0 + elapsed, None when switched off or when
    the clock no longer fits 48 bits *)
-Definition clock (on : bool) (c0 t : Z) : option Z :=
+Definition ts_clock (on : bool) (c0 t : Z) : option Z :=
   if on then (if c0 + t <=? ts_max then Some (c0 + t) else None) else None.
 
-Inductive procedure := PLan | PNonLan | PDirect.
+Inductive ts_procedure := TsLan | TsNonLan | TsDirect.
 
 (* enum State of time.rs; the Option payloads are filled by `start`, which always runs first *)
-Inductive tstate :=
-| SMeasure (start : Z)       (* MeasureDelay(Some(Instant)) : instant of `start` *)
-| SWriteAbs (ts : Z)         (* WriteAbsoluteTime(Some(ts)) *)
-| SRecord (ts : Z)           (* RecordCurrentTime(Some(ts)) : master clock sampled in `start` *)
-| SWriteLast (ts : Z).       (* WriteLastRecordedTime(ts) *)
+Inductive ts_state :=
+| TsSMeasure (start : Z)       (* MeasureDelay(Some(Instant)) : instant of `start` *)
+| TsSWriteAbs (ts : Z)         (* WriteAbsoluteTime(Some(ts)) *)
+| TsSRecord (ts : Z)           (* RecordCurrentTime(Some(ts)) : master clock sampled in `start` *)
+| TsSWriteLast (ts : Z).       (* WriteLastRecordedTime(ts) *)
 
-Inductive terr :=
-| ETimeout | EIin2 | EHeaders | EMultiFrag | EDelay (d : Z) | EOverflow | ENeedTime | ENoSysTime.
+Inductive ts_err :=
+| TsETimeout | TsEIin2 | TsEHeaders | TsEMultiFrag | TsEDelay (d : Z) | TsEOverflow | TsENeedTime | TsENoSysTime.
 
 (* TimeSyncTask::start: None = SystemTimeNotAvailable *)
-Definition m_start (p : procedure) (clk : option Z) (now : Z) : option tstate :=
+Definition m_start (p : ts_procedure) (clk : option Z) (now : Z) : option ts_state :=
   match clk with
   | None => None
   | Some c => Some (match p with
-                    | PLan => SRecord c
-                    | PNonLan => SMeasure now
-                    | PDirect => SWriteAbs c
+                    | TsLan => TsSRecord c
+                    | TsNonLan => TsSMeasure now
+                    | TsDirect => TsSWriteAbs c
                     end)
   end.
 
 (* what the task asks for *)
-Inductive req := RDelay | RRecord | RWriteAbs (ts : Z) | RWriteLast (ts : Z).
+Inductive ts_req := TsRDelay | TsRRecord | TsRWriteAbs (ts : Z) | TsRWriteLast (ts : Z).
 
-Definition req_of (s : tstate) : req :=
+Definition ts_req_of (s : ts_state) : ts_req :=
   match s with
-  | SMeasure _ => RDelay
-  | SWriteAbs ts => RWriteAbs ts
-  | SRecord _ => RRecord
-  | SWriteLast ts => RWriteLast ts
+  | TsSMeasure _ => TsRDelay
+  | TsSWriteAbs ts => TsRWriteAbs ts
+  | TsSRecord _ => TsRRecord
+  | TsSWriteLast ts => TsRWriteLast ts
   end.
 
 (* the object part of a response as the task sees it: nothing / exactly one g52v2 with count one /
    anything else (several headers, other variations, unparsable bytes) *)
-Inductive robjs := ONone | ODelay (d : Z) | OOther.
+Inductive ts_robjs := TsONone | TsODelay (d : Z) | TsOOther.
 
-Inductive step := Next (s : tstate) | Done | Fail (e : terr).
+Inductive ts_step := TsNext (s : ts_state) | TsDone | TsFail (e : ts_err).
 
 (* TimeSyncTask::handle, after validate_non_read_response accepted the fragment.
    `need` = IIN1.4 NEED_TIME of the response, `clk` = get_system_time() at this instant *)
-Definition m_handle (s : tstate) (clk : option Z) (now : Z) (need : bool) (o : robjs) : step :=
+Definition m_handle (s : ts_state) (clk : option Z) (now : Z) (need : bool) (o : ts_robjs) : ts_step :=
   match s with
-  | SMeasure start =>
+  | TsSMeasure start =>
       let interval := now - start in
       match o with
-      | ODelay d =>
-          if interval <? d then Fail (EDelay d)          (* interval.checked_sub(delay) = None *)
+      | TsODelay d =>
+          if interval <? d then TsFail (TsEDelay d)          (* interval.checked_sub(delay) = None *)
           else match clk with
-               | None => Fail ENoSysTime
+               | None => TsFail TsENoSysTime
                | Some c =>
-                   match checked_add c ((interval - d) / 2) with   (* (x / 2).as_millis() *)
-                   | None => Fail EOverflow
-                   | Some ts => Next (SWriteAbs ts)
+                   match ts_checked_add c ((interval - d) / 2) with   (* (x / 2).as_millis() *)
+                   | None => TsFail TsEOverflow
+                   | Some ts => TsNext (TsSWriteAbs ts)
                    end
                end
-      | _ => Fail EHeaders
+      | _ => TsFail TsEHeaders
       end
-  | SRecord ts =>
-      match o with ONone => Next (SWriteLast ts) | _ => Fail EHeaders end
-  | SWriteAbs _ | SWriteLast _ =>
+  | TsSRecord ts =>
+      match o with TsONone => TsNext (TsSWriteLast ts) | _ => TsFail TsEHeaders end
+  | TsSWriteAbs _ | TsSWriteLast _ =>
       match o with
-      | ONone => if need then Fail ENeedTime else Done
-      | _ => Fail EHeaders
+      | TsONone => if need then TsFail TsENeedTime else TsDone
+      | _ => TsFail TsEHeaders
       end
   end.
 
 (* ---- outstation ---- *)
-Inductive need_mode := NAuto | NStuck | NClear.   (* scripted OutstationApplication *)
+Inductive ts_need_mode := TsNAuto | TsNStuck | TsNClear.   (* scripted OutstationApplication *)
 
-Record otime := { o_rec : option Z;     (* SessionState::last_recorded_time *)
-                  o_need : bool }.      (* ApplicationIin::need_time *)
+Record ts_otime := { to_rec : option Z;     (* SessionState::last_recorded_time *)
+                  to_need : bool }.      (* ApplicationIin::need_time *)
 
-Definition after_write (m : need_mode) (need : bool) : bool :=
-  match m with NAuto => false | NStuck => need | NClear => need end.
+Definition ts_after_write (m : ts_need_mode) (need : bool) : bool :=
+  match m with TsNAuto => false | TsNStuck => need | TsNClear => need end.
 
-Record oresult := { or_st : otime; or_iin2 : Z; or_delay : option Z; or_written : option Z }.
+Record ts_oresult := { or_st : ts_otime; or_iin2 : Z; or_delay : option Z; or_written : option Z }.
 
 (* handle_delay_measure / handle_record_current_time / handle_write_abs_time /
    handle_write_at_last_recorded_time; iin2 = 4 is PARAMETER_ERROR *)
-Definition o_handle (m : need_mode) (reported : Z) (st : otime) (now : Z) (r : req) : oresult :=
+Definition o_handle (m : ts_need_mode) (reported : Z) (st : ts_otime) (now : Z) (r : ts_req) : ts_oresult :=
   match r with
-  | RDelay => {| or_st := st; or_iin2 := 0; or_delay := Some reported; or_written := None |}
-  | RRecord => {| or_st := {| o_rec := Some now; o_need := o_need st |};
+  | TsRDelay => {| or_st := st; or_iin2 := 0; or_delay := Some reported; or_written := None |}
+  | TsRRecord => {| or_st := {| to_rec := Some now; to_need := to_need st |};
                   or_iin2 := 0; or_delay := None; or_written := None |}
-  | RWriteAbs ts => {| or_st := {| o_rec := o_rec st; o_need := after_write m (o_need st) |};
+  | TsRWriteAbs ts => {| or_st := {| to_rec := to_rec st; to_need := ts_after_write m (to_need st) |};
                        or_iin2 := 0; or_delay := None; or_written := Some ts |}
-  | RWriteLast ts =>
-      match o_rec st with
+  | TsRWriteLast ts =>
+      match to_rec st with
       | None => {| or_st := st; or_iin2 := 4; or_delay := None; or_written := None |}
       | Some r0 =>
-          match checked_add ts (now - r0) with
+          match ts_checked_add ts (now - r0) with
           | None => {| or_st := st; or_iin2 := 4; or_delay := None; or_written := None |}
-          | Some v => {| or_st := {| o_rec := None; o_need := after_write m (o_need st) |};
+          | Some v => {| or_st := {| to_rec := None; to_need := ts_after_write m (to_need st) |};
                          or_iin2 := 0; or_delay := None; or_written := Some v |}
           end
       end
   end.
 
-Definition objs_of (d : option Z) : robjs := match d with None => ONone | Some x => ODelay x end.
+Definition ts_objs_of (d : option Z) : ts_robjs := match d with None => TsONone | Some x => TsODelay x end.
 
 (* ------------------------------------------------------------------------------------------ *)
 (* one synchronisation over an undisturbed channel, composed from the blocks above             *)
 
-Record sched := {
-  sc_c0 : Z;          (* master clock at instant 0 *)
-  sc_on : bool;       (* master clock available *)
-  sc_t0 : Z;          (* instant the task starts *)
-  sc_f1 : Z;          (* forward delay of the first request *)
-  sc_b1 : Z;          (* instant the first response reaches the master minus the instant the
+Record ts_sched := {
+  tsp_c0 : Z;          (* master clock at instant 0 *)
+  tsp_on : bool;       (* master clock available *)
+  tsp_t0 : Z;          (* instant the task starts *)
+  tsp_f1 : Z;          (* forward delay of the first request *)
+  tsp_b1 : Z;          (* instant the first response reaches the master minus the instant the
                          request reached the outstation (actual processing + backward delay) *)
-  sc_f2 : Z;          (* the same for the second exchange (the WRITE) *)
-  sc_b2 : Z;
-  sc_tmo : Z;         (* response timeout *)
-  sc_rep : Z;         (* processing delay reported in g52v2 *)
-  sc_mode : need_mode;
-  sc_need0 : bool;    (* NEED_TIME before the procedure *)
-  sc_rec0 : option Z  (* a RECORD_CURRENT_TIME instant left over from earlier traffic *)
+  tsp_f2 : Z;          (* the same for the second exchange (the WRITE) *)
+  tsp_b2 : Z;
+  tsp_tmo : Z;         (* response timeout *)
+  tsp_rep : Z;         (* processing delay reported in g52v2 *)
+  tsp_mode : ts_need_mode;
+  tsp_need0 : bool;    (* NEED_TIME before the procedure *)
+  tsp_rec0 : option Z  (* a RECORD_CURRENT_TIME instant left over from earlier traffic *)
 }.
 
-Inductive outcome :=
-| Success (written : Z) (t_written : Z)     (* reported successful; the application was handed
+Inductive ts_outcome :=
+| TsSuccess (written : Z) (t_written : Z)     (* reported successful; the application was handed
                                                `written` at instant `t_written` *)
-| Failure (e : terr).
+| TsFailure (e : ts_err).
 
-Definition finish (w : option Z) (t : Z) : outcome :=
-  match w with Some v => Success v t | None => Failure EHeaders end.
+Definition ts_finish (w : option Z) (t : Z) : ts_outcome :=
+  match w with Some v => TsSuccess v t | None => TsFailure TsEHeaders end.
 
-Definition plain_sync (p : procedure) (P : sched) : outcome :=
-  let c0 := sc_c0 P in let on := sc_on P in let t0 := sc_t0 P in
-  match m_start p (clock on c0 t0) t0 with
-  | None => Failure ENoSysTime
+Definition plain_sync (p : ts_procedure) (P : ts_sched) : ts_outcome :=
+  let c0 := tsp_c0 P in let on := tsp_on P in let t0 := tsp_t0 P in
+  match m_start p (ts_clock on c0 t0) t0 with
+  | None => TsFailure TsENoSysTime
   | Some s1 =>
-      let ta1 := t0 + sc_f1 P in
-      let r1 := o_handle (sc_mode P) (sc_rep P) {| o_rec := sc_rec0 P; o_need := sc_need0 P |} ta1 (req_of s1) in
-      let tr1 := ta1 + sc_b1 P in
-      if t0 + sc_tmo P <=? tr1 then Failure ETimeout
-      else if negb (or_iin2 r1 =? 0) then Failure EIin2
-      else match m_handle s1 (clock on c0 tr1) tr1 (o_need (or_st r1)) (objs_of (or_delay r1)) with
-           | Fail e => Failure e
-           | Done => finish (or_written r1) ta1
-           | Next s2 =>
-               let ta2 := tr1 + sc_f2 P in
-               let r2 := o_handle (sc_mode P) (sc_rep P) (or_st r1) ta2 (req_of s2) in
-               let tr2 := ta2 + sc_b2 P in
-               if tr1 + sc_tmo P <=? tr2 then Failure ETimeout
-               else if negb (or_iin2 r2 =? 0) then Failure EIin2
-               else match m_handle s2 (clock on c0 tr2) tr2 (o_need (or_st r2)) (objs_of (or_delay r2)) with
-                    | Done => finish (or_written r2) ta2
-                    | Fail e => Failure e
-                    | Next _ => Failure EHeaders
+      let ta1 := t0 + tsp_f1 P in
+      let r1 := o_handle (tsp_mode P) (tsp_rep P) {| to_rec := tsp_rec0 P; to_need := tsp_need0 P |} ta1 (ts_req_of s1) in
+      let tr1 := ta1 + tsp_b1 P in
+      if t0 + tsp_tmo P <=? tr1 then TsFailure TsETimeout
+      else if negb (or_iin2 r1 =? 0) then TsFailure TsEIin2
+      else match m_handle s1 (ts_clock on c0 tr1) tr1 (to_need (or_st r1)) (ts_objs_of (or_delay r1)) with
+           | TsFail e => TsFailure e
+           | TsDone => ts_finish (or_written r1) ta1
+           | TsNext s2 =>
+               let ta2 := tr1 + tsp_f2 P in
+               let r2 := o_handle (tsp_mode P) (tsp_rep P) (or_st r1) ta2 (ts_req_of s2) in
+               let tr2 := ta2 + tsp_b2 P in
+               if tr1 + tsp_tmo P <=? tr2 then TsFailure TsETimeout
+               else if negb (or_iin2 r2 =? 0) then TsFailure TsEIin2
+               else match m_handle s2 (ts_clock on c0 tr2) tr2 (to_need (or_st r2)) (ts_objs_of (or_delay r2)) with
+                    | TsDone => ts_finish (or_written r2) ta2
+                    | TsFail e => TsFailure e
+                    | TsNext _ => TsFailure TsEHeaders
                     end
            end
   end.
@@ -191,155 +191,155 @@ Definition plain_sync (p : procedure) (P : sched) : outcome :=
 (* ------------------------------------------------------------------------------------------ *)
 (* bytes                                                                                       *)
 
-Definition byte_at (v : Z) (i : Z) : N := Z.to_N ((v / 256 ^ i) mod 256).
-Definition le48 (v : Z) : list N := map (byte_at v) [0; 1; 2; 3; 4; 5].
+Definition ts_byte_at (v : Z) (i : Z) : N := Z.to_N ((v / 256 ^ i) mod 256).
+Definition le48 (v : Z) : list N := map (ts_byte_at v) [0; 1; 2; 3; 4; 5].
 Definition de48 (b0 b1 b2 b3 b4 b5 : N) : Z :=
   Z.of_N b0 + 256 * (Z.of_N b1 + 256 * (Z.of_N b2 + 256 * (Z.of_N b3 + 256 * (Z.of_N b4 + 256 * Z.of_N b5)))).
 
 (* request as the master formats it: control FIR|FIN|seq, function, objects *)
-Definition enc_req (seq : N) (r : req) : list N :=
+Definition ts_enc_req (seq : N) (r : ts_req) : list N :=
   let c := (192 + seq)%N in
   match r with
-  | RDelay => [c; 23%N]
-  | RRecord => [c; 24%N]
-  | RWriteAbs ts => [c; 2; 50; 1; 7; 1]%N ++ le48 ts
-  | RWriteLast ts => [c; 2; 50; 3; 7; 1]%N ++ le48 ts
+  | TsRDelay => [c; 23%N]
+  | TsRRecord => [c; 24%N]
+  | TsRWriteAbs ts => [c; 2; 50; 1; 7; 1]%N ++ le48 ts
+  | TsRWriteLast ts => [c; 2; 50; 3; 7; 1]%N ++ le48 ts
   end.
 
-Inductive oreq := QConfirm | QReq (r : req) | QUnsupported.
+Inductive ts_oreq := TsQConfirm | TsQReq (r : ts_req) | TsQUnsupported.
 
 (* what the outstation makes of a fragment (only the shapes the master task produces, CONFIRM, and
    everything else = unsupported by this model) *)
-Definition parse_req (l : list N) : oreq :=
+Definition ts_parse_req (l : list N) : ts_oreq :=
   match l with
-  | [_; 0%N] => QConfirm
-  | [_; 23%N] => QReq RDelay
-  | [_; 24%N] => QReq RRecord
-  | [_; 2%N; 50%N; 1%N; 7%N; 1%N; b0; b1; b2; b3; b4; b5] => QReq (RWriteAbs (de48 b0 b1 b2 b3 b4 b5))
-  | [_; 2%N; 50%N; 3%N; 7%N; 1%N; b0; b1; b2; b3; b4; b5] => QReq (RWriteLast (de48 b0 b1 b2 b3 b4 b5))
-  | _ => QUnsupported
+  | [_; 0%N] => TsQConfirm
+  | [_; 23%N] => TsQReq TsRDelay
+  | [_; 24%N] => TsQReq TsRRecord
+  | [_; 2%N; 50%N; 1%N; 7%N; 1%N; b0; b1; b2; b3; b4; b5] => TsQReq (TsRWriteAbs (de48 b0 b1 b2 b3 b4 b5))
+  | [_; 2%N; 50%N; 3%N; 7%N; 1%N; b0; b1; b2; b3; b4; b5] => TsQReq (TsRWriteLast (de48 b0 b1 b2 b3 b4 b5))
+  | _ => TsQUnsupported
   end.
 
-Definition delay_objs (d : Z) : list N :=
+Definition ts_delay_objs (d : Z) : list N :=
   [52; 2; 7; 1; Z.to_N (d mod 256); Z.to_N ((d / 256) mod 256)]%N.
 
-Definition enc_resp (seq iin1 iin2 : N) (objs : list N) : list N :=
+Definition ts_enc_resp (seq iin1 iin2 : N) (objs : list N) : list N :=
   [(192 + seq)%N; 129%N; iin1; iin2] ++ objs.
 
 (* raw_objects of a response as the time task classifies them: get_only_object_header +
    CountVariation::Group52Var2 + single() accept exactly one g52v2 header with count 1 (one byte or
    two byte count qualifier) *)
-Definition classify_objs (l : list N) : robjs :=
+Definition ts_classify_objs (l : list N) : ts_robjs :=
   match l with
-  | [] => ONone
-  | [52%N; 2%N; 7%N; 1%N; lo; hi] => ODelay (Z.of_N lo + 256 * Z.of_N hi)
-  | [52%N; 2%N; 8%N; 1%N; 0%N; lo; hi] => ODelay (Z.of_N lo + 256 * Z.of_N hi)
-  | _ => OOther
+  | [] => TsONone
+  | [52%N; 2%N; 7%N; 1%N; lo; hi] => TsODelay (Z.of_N lo + 256 * Z.of_N hi)
+  | [52%N; 2%N; 8%N; 1%N; 0%N; lo; hi] => TsODelay (Z.of_N lo + 256 * Z.of_N hi)
+  | _ => TsOOther
   end.
 
 (* ------------------------------------------------------------------------------------------ *)
 (* the whole engine: master task, outstation task, channel                                     *)
 
-Inductive tobs :=
-| OM2O (t_send : Z) (t_arrive : option Z) (data : list N)     (* None = dropped *)
-| OO2M (t_send : Z) (t_arrive : option Z) (data : list N)
-| OInj (t : Z) (data : list N)
-| OWritten (t ts : Z)
-| ORes (token : N) (r : option terr)                           (* None = ok *)
-| OClock (t : Z) (c : option Z)
-| OAmbiguous          (* two stimuli for one task at the same instant: the implementation's choice
+Inductive ts_obs :=
+| TsM2O (t_send : Z) (t_arrive : option Z) (data : list N)     (* None = dropped *)
+| TsO2M (t_send : Z) (t_arrive : option Z) (data : list N)
+| TsInj (t : Z) (data : list N)
+| TsWritten (t ts : Z)
+| TsRes (token : N) (r : option ts_err)                           (* None = ok *)
+| TsClock (t : Z) (c : option Z)
+| TsAmbiguous          (* two stimuli for one task at the same instant: the implementation's choice
                          is not determined (select! picks at random); scripts avoid it *)
-| OUnsupported        (* a fragment this model does not describe *)
-| OStall.
+| TsUnsupported        (* a fragment this model does not describe *)
+| TsStall.
 
-Inductive tamper := TObjs (l : list N) | TIin (a b : N) | TCtl (x : N).
+Inductive ts_tamper := TsTObjs (l : list N) | TsTIin (a b : N) | TsTCtl (x : N).
 
-Record msg := { mg_arrive : Z; mg_to_master : bool; mg_data : list N }.
+Record ts_msg := { mg_arrive : Z; mg_to_master : bool; mg_data : list N }.
 
-Record chan := {
+Record ts_chan := {
   ch_fwd : Z; ch_back : Z; ch_hold : Z;
   ch_drop_fwd : N; ch_drop_back : N;
   ch_dup_fwd : option Z; ch_dup_back : option Z;
-  ch_tamper : list tamper;
-  ch_queue : list msg          (* in order of sending *)
+  ch_tamper : list ts_tamper;
+  ch_queue : list ts_msg          (* in order of sending *)
 }.
 
-Record mtask := { mt_token : N; mt_state : tstate; mt_seq : N; mt_deadline : Z }.
+Record ts_mtask := { mt_token : N; mt_state : ts_state; mt_seq : N; mt_deadline : Z }.
 
-Record mst := { m_seq : N; m_cur : option mtask; m_q : list N }.
+Record ts_mst := { tm_seq : N; tm_cur : option ts_mtask; tm_q : list N }.
 
-Record olast := { ol_req : list N; ol_seq : N; ol_iin1 : N; ol_iin2 : N; ol_objs : list N }.
+Record ts_olast := { ol_req : list N; ol_seq : N; ol_iin1 : N; ol_iin2 : N; ol_objs : list N }.
 
-Record ost := { os_time : otime; os_last : option olast }.
+Record ts_ost := { tos_time : ts_otime; tos_last : option ts_olast }.
 
-Record tcfg := { tc_c0 : Z; tc_proc : procedure; tc_tmo : Z; tc_mode : need_mode }.
+Record ts_cfg := { tsc_c0 : Z; tsc_proc : ts_procedure; tsc_tmo : Z; tsc_mode : ts_need_mode }.
 
-Record sim := {
-  s_now : Z; s_on : bool; s_rep : Z;
-  s_pend : list N;             (* `sync` requests not yet handed to the master (next `run`) *)
-  s_m : mst; s_o : ost; s_c : chan
+Record ts_sim := {
+  tss_now : Z; tss_on : bool; tss_rep : Z;
+  tss_pend : list N;             (* `sync` requests not yet handed to the master (next `run`) *)
+  tss_m : ts_mst; tss_o : ts_ost; tss_c : ts_chan
 }.
 
-Definition set_chan (s : sim) (c : chan) : sim :=
-  {| s_now := s_now s; s_on := s_on s; s_rep := s_rep s; s_pend := s_pend s; s_m := s_m s; s_o := s_o s; s_c := c |}.
-Definition set_m (s : sim) (m : mst) : sim :=
-  {| s_now := s_now s; s_on := s_on s; s_rep := s_rep s; s_pend := s_pend s; s_m := m; s_o := s_o s; s_c := s_c s |}.
-Definition set_o (s : sim) (o : ost) : sim :=
-  {| s_now := s_now s; s_on := s_on s; s_rep := s_rep s; s_pend := s_pend s; s_m := s_m s; s_o := o; s_c := s_c s |}.
-Definition set_now (s : sim) (t : Z) : sim :=
-  {| s_now := t; s_on := s_on s; s_rep := s_rep s; s_pend := s_pend s; s_m := s_m s; s_o := s_o s; s_c := s_c s |}.
-Definition set_pend (s : sim) (p : list N) : sim :=
-  {| s_now := s_now s; s_on := s_on s; s_rep := s_rep s; s_pend := p; s_m := s_m s; s_o := s_o s; s_c := s_c s |}.
+Definition ts_set_chan (s : ts_sim) (c : ts_chan) : ts_sim :=
+  {| tss_now := tss_now s; tss_on := tss_on s; tss_rep := tss_rep s; tss_pend := tss_pend s; tss_m := tss_m s; tss_o := tss_o s; tss_c := c |}.
+Definition ts_set_m (s : ts_sim) (m : ts_mst) : ts_sim :=
+  {| tss_now := tss_now s; tss_on := tss_on s; tss_rep := tss_rep s; tss_pend := tss_pend s; tss_m := m; tss_o := tss_o s; tss_c := tss_c s |}.
+Definition ts_set_o (s : ts_sim) (o : ts_ost) : ts_sim :=
+  {| tss_now := tss_now s; tss_on := tss_on s; tss_rep := tss_rep s; tss_pend := tss_pend s; tss_m := tss_m s; tss_o := o; tss_c := tss_c s |}.
+Definition ts_set_now (s : ts_sim) (t : Z) : ts_sim :=
+  {| tss_now := t; tss_on := tss_on s; tss_rep := tss_rep s; tss_pend := tss_pend s; tss_m := tss_m s; tss_o := tss_o s; tss_c := tss_c s |}.
+Definition ts_set_pend (s : ts_sim) (p : list N) : ts_sim :=
+  {| tss_now := tss_now s; tss_on := tss_on s; tss_rep := tss_rep s; tss_pend := p; tss_m := tss_m s; tss_o := tss_o s; tss_c := tss_c s |}.
 
-Definition enqueue (c : chan) (ms : list msg) : chan :=
+Definition ts_enqueue (c : ts_chan) (ms : list ts_msg) : ts_chan :=
   {| ch_fwd := ch_fwd c; ch_back := ch_back c; ch_hold := ch_hold c;
      ch_drop_fwd := ch_drop_fwd c; ch_drop_back := ch_drop_back c;
      ch_dup_fwd := ch_dup_fwd c; ch_dup_back := ch_dup_back c;
      ch_tamper := ch_tamper c; ch_queue := ch_queue c ++ ms |}.
 
 (* Channel::master_wrote *)
-Definition master_wrote (s : sim) (data : list N) : sim * list tobs :=
-  let c := s_c s in let t := s_now s in
+Definition ts_master_wrote (s : ts_sim) (data : list N) : ts_sim * list ts_obs :=
+  let c := tss_c s in let t := tss_now s in
   if (0 <? ch_drop_fwd c)%N then
-    (set_chan s {| ch_fwd := ch_fwd c; ch_back := ch_back c; ch_hold := ch_hold c;
+    (ts_set_chan s {| ch_fwd := ch_fwd c; ch_back := ch_back c; ch_hold := ch_hold c;
                    ch_drop_fwd := (ch_drop_fwd c - 1)%N; ch_drop_back := ch_drop_back c;
                    ch_dup_fwd := ch_dup_fwd c; ch_dup_back := ch_dup_back c;
                    ch_tamper := ch_tamper c; ch_queue := ch_queue c |},
-     [OM2O t None data])
+     [TsM2O t None data])
   else
     let a := t + ch_fwd c in
     let first := {| mg_arrive := a; mg_to_master := false; mg_data := data |} in
     match ch_dup_fwd c with
-    | None => (set_chan s (enqueue c [first]), [OM2O t (Some a) data])
+    | None => (ts_set_chan s (ts_enqueue c [first]), [TsM2O t (Some a) data])
     | Some extra =>
         let c' := {| ch_fwd := ch_fwd c; ch_back := ch_back c; ch_hold := ch_hold c;
                      ch_drop_fwd := ch_drop_fwd c; ch_drop_back := ch_drop_back c;
                      ch_dup_fwd := None; ch_dup_back := ch_dup_back c;
                      ch_tamper := ch_tamper c; ch_queue := ch_queue c |} in
-        (set_chan s (enqueue c' [first; {| mg_arrive := a + extra; mg_to_master := false; mg_data := data |}]),
-         [OM2O t (Some a) data; OM2O t (Some (a + extra)) data])
+        (ts_set_chan s (ts_enqueue c' [first; {| mg_arrive := a + extra; mg_to_master := false; mg_data := data |}]),
+         [TsM2O t (Some a) data; TsM2O t (Some (a + extra)) data])
     end.
 
-Definition apply_tamper (data : list N) (tm : tamper) : list N :=
+Definition ts_apply_tamper (data : list N) (tm : ts_tamper) : list N :=
   match tm with
-  | TObjs o => firstn 4 data ++ o
-  | TIin a b => match data with
+  | TsTObjs o => firstn 4 data ++ o
+  | TsTIin a b => match data with
                 | c :: f :: i1 :: i2 :: rest => c :: f :: N.lor i1 a :: N.lor i2 b :: rest
                 | _ => data
                 end
-  | TCtl x => match data with c :: rest => N.lxor c x :: rest | [] => [] end
+  | TsTCtl x => match data with c :: rest => N.lxor c x :: rest | [] => [] end
   end.
 
 (* Channel::outstation_wrote *)
-Definition outstation_wrote (s : sim) (data0 : list N) : sim * list tobs :=
-  let c := s_c s in let t := s_now s in
-  let data := fold_left apply_tamper (ch_tamper c) data0 in
+Definition ts_outstation_wrote (s : ts_sim) (data0 : list N) : ts_sim * list ts_obs :=
+  let c := tss_c s in let t := tss_now s in
+  let data := fold_left ts_apply_tamper (ch_tamper c) data0 in
   if (0 <? ch_drop_back c)%N then
-    (set_chan s {| ch_fwd := ch_fwd c; ch_back := ch_back c; ch_hold := ch_hold c;
+    (ts_set_chan s {| ch_fwd := ch_fwd c; ch_back := ch_back c; ch_hold := ch_hold c;
                    ch_drop_fwd := ch_drop_fwd c; ch_drop_back := (ch_drop_back c - 1)%N;
                    ch_dup_fwd := ch_dup_fwd c; ch_dup_back := ch_dup_back c;
                    ch_tamper := []; ch_queue := ch_queue c |},
-     [OO2M t None data])
+     [TsO2M t None data])
   else
     let a := t + ch_hold c + ch_back c in
     let first := {| mg_arrive := a; mg_to_master := true; mg_data := data |} in
@@ -349,130 +349,130 @@ Definition outstation_wrote (s : sim) (data0 : list N) : sim * list tobs :=
                      ch_drop_fwd := ch_drop_fwd c; ch_drop_back := ch_drop_back c;
                      ch_dup_fwd := ch_dup_fwd c; ch_dup_back := None;
                      ch_tamper := []; ch_queue := ch_queue c |} in
-        (set_chan s (enqueue c' [first]), [OO2M t (Some a) data])
+        (ts_set_chan s (ts_enqueue c' [first]), [TsO2M t (Some a) data])
     | Some extra =>
         let c' := {| ch_fwd := ch_fwd c; ch_back := ch_back c; ch_hold := ch_hold c;
                      ch_drop_fwd := ch_drop_fwd c; ch_drop_back := ch_drop_back c;
                      ch_dup_fwd := ch_dup_fwd c; ch_dup_back := None;
                      ch_tamper := []; ch_queue := ch_queue c |} in
-        (set_chan s (enqueue c' [first; {| mg_arrive := a + extra; mg_to_master := true; mg_data := data |}]),
-         [OO2M t (Some a) data; OO2M t (Some (a + extra)) data])
+        (ts_set_chan s (ts_enqueue c' [first; {| mg_arrive := a + extra; mg_to_master := true; mg_data := data |}]),
+         [TsO2M t (Some a) data; TsO2M t (Some (a + extra)) data])
     end.
 
 (* ---- master task ---- *)
 
-Definition seq_next (x : N) : N := ((x + 1) mod 16)%N.
+Definition ts_seq_next (x : N) : N := ((x + 1) mod 16)%N.
 
 (* the master is idle: start queued user requests until one really sends a request
    (Association::priority_task: tasks whose `start` fails are completed and dropped) *)
-Fixpoint m_try_start (fuel : nat) (cfg : tcfg) (s : sim) : sim * list tobs :=
+Fixpoint m_try_start (fuel : nat) (cfg : ts_cfg) (s : ts_sim) : ts_sim * list ts_obs :=
   match fuel with
   | O => (s, [])
   | S f =>
-      match m_cur (s_m s), m_q (s_m s) with
+      match tm_cur (tss_m s), tm_q (tss_m s) with
       | None, tok :: rest =>
-          match m_start (tc_proc cfg) (clock (s_on s) (tc_c0 cfg) (s_now s)) (s_now s) with
+          match m_start (tsc_proc cfg) (ts_clock (tss_on s) (tsc_c0 cfg) (tss_now s)) (tss_now s) with
           | None =>
-              let s1 := set_m s {| m_seq := m_seq (s_m s); m_cur := None; m_q := rest |} in
+              let s1 := ts_set_m s {| tm_seq := tm_seq (tss_m s); tm_cur := None; tm_q := rest |} in
               let '(s2, obs) := m_try_start f cfg s1 in
-              (s2, ORes tok (Some ENoSysTime) :: obs)
+              (s2, TsRes tok (Some TsENoSysTime) :: obs)
           | Some st =>
-              let seq := m_seq (s_m s) in
-              let s1 := set_m s {| m_seq := seq_next seq;
-                                   m_cur := Some {| mt_token := tok; mt_state := st; mt_seq := seq;
-                                                    mt_deadline := s_now s + tc_tmo cfg |};
-                                   m_q := rest |} in
-              master_wrote s1 (enc_req seq (req_of st))
+              let seq := tm_seq (tss_m s) in
+              let s1 := ts_set_m s {| tm_seq := ts_seq_next seq;
+                                   tm_cur := Some {| mt_token := tok; mt_state := st; mt_seq := seq;
+                                                    mt_deadline := tss_now s + tsc_tmo cfg |};
+                                   tm_q := rest |} in
+              ts_master_wrote s1 (ts_enc_req seq (ts_req_of st))
           end
       | _, _ => (s, [])
       end
   end.
 
-Definition m_finish (cfg : tcfg) (s : sim) (tok : N) (r : option terr) : sim * list tobs :=
-  let s1 := set_m s {| m_seq := m_seq (s_m s); m_cur := None; m_q := m_q (s_m s) |} in
-  let '(s2, obs) := m_try_start (S (length (m_q (s_m s)))) cfg s1 in
-  (s2, ORes tok r :: obs).
+Definition m_finish (cfg : ts_cfg) (s : ts_sim) (tok : N) (r : option ts_err) : ts_sim * list ts_obs :=
+  let s1 := ts_set_m s {| tm_seq := tm_seq (tss_m s); tm_cur := None; tm_q := tm_q (tss_m s) |} in
+  let '(s2, obs) := m_try_start (S (length (tm_q (tss_m s)))) cfg s1 in
+  (s2, TsRes tok r :: obs).
 
 (* the master's mock reader returns a fragment *)
-Definition m_deliver (cfg : tcfg) (s : sim) (data : list N) : sim * list tobs :=
+Definition m_deliver (cfg : ts_cfg) (s : ts_sim) (data : list N) : ts_sim * list ts_obs :=
   match data with
   | ctl :: fn :: iin1 :: iin2 :: objs =>
       let seq := (ctl mod 16)%N in
       let fir := N.testbit ctl 7 in let fin := N.testbit ctl 6 in
       let con := N.testbit ctl 5 in let uns := N.testbit ctl 4 in
-      if N.testbit iin1 7 then (s, [OUnsupported])     (* DEVICE_RESTART would start an automatic task *)
+      if N.testbit iin1 7 then (s, [TsUnsupported])     (* DEVICE_RESTART would start an automatic task *)
       else if (fn =? 130)%N then
         (* handle_unsolicited: accepted (no start-up integrity scan is configured), confirmed when CON *)
         if uns && fir && fin then
-          (if con then master_wrote s [(208 + seq)%N; 0%N] else (s, []))
-        else (s, [OUnsupported])
+          (if con then ts_master_wrote s [(208 + seq)%N; 0%N] else (s, []))
+        else (s, [TsUnsupported])
       else if (fn =? 129)%N then
-        if uns then (s, [OUnsupported]) else
-        match m_cur (s_m s) with
+        if uns then (s, [TsUnsupported]) else
+        match tm_cur (tss_m s) with
         | None => (s, [])                                (* handle_fragment_while_idle: ignored *)
         | Some t =>
             if negb (seq =? mt_seq t)%N then (s, [])     (* validate_non_read_response: ignored *)
-            else if negb (fir && fin) then m_finish cfg s (mt_token t) (Some EMultiFrag)
-            else if negb (N.land iin2 7 =? 0)%N then m_finish cfg s (mt_token t) (Some EIin2)
+            else if negb (fir && fin) then m_finish cfg s (mt_token t) (Some TsEMultiFrag)
+            else if negb (N.land iin2 7 =? 0)%N then m_finish cfg s (mt_token t) (Some TsEIin2)
             else
-              match m_handle (mt_state t) (clock (s_on s) (tc_c0 cfg) (s_now s)) (s_now s)
-                             (N.testbit iin1 4) (classify_objs objs) with
-              | Fail e => m_finish cfg s (mt_token t) (Some e)
-              | Done => m_finish cfg s (mt_token t) None
-              | Next st =>
-                  let sq := m_seq (s_m s) in
-                  let s1 := set_m s {| m_seq := seq_next sq;
-                                       m_cur := Some {| mt_token := mt_token t; mt_state := st; mt_seq := sq;
-                                                        mt_deadline := s_now s + tc_tmo cfg |};
-                                       m_q := m_q (s_m s) |} in
-                  master_wrote s1 (enc_req sq (req_of st))
+              match m_handle (mt_state t) (ts_clock (tss_on s) (tsc_c0 cfg) (tss_now s)) (tss_now s)
+                             (N.testbit iin1 4) (ts_classify_objs objs) with
+              | TsFail e => m_finish cfg s (mt_token t) (Some e)
+              | TsDone => m_finish cfg s (mt_token t) None
+              | TsNext st =>
+                  let sq := tm_seq (tss_m s) in
+                  let s1 := ts_set_m s {| tm_seq := ts_seq_next sq;
+                                       tm_cur := Some {| mt_token := mt_token t; mt_state := st; mt_seq := sq;
+                                                        mt_deadline := tss_now s + tsc_tmo cfg |};
+                                       tm_q := tm_q (tss_m s) |} in
+                  ts_master_wrote s1 (ts_enc_req sq (ts_req_of st))
               end
         end
-      else (s, [OUnsupported])
-  | _ => (s, [OUnsupported])
+      else (s, [TsUnsupported])
+  | _ => (s, [TsUnsupported])
   end.
 
 (* ---- outstation task ---- *)
 
-Definition need_bit (b : bool) : N := if b then 16%N else 0%N.
+Definition ts_need_bit (b : bool) : N := if b then 16%N else 0%N.
 
-Fixpoint bytes_eqb (a b : list N) : bool :=
+Fixpoint ts_bytes_eqb (a b : list N) : bool :=
   match a, b with
   | [], [] => true
-  | x :: a', y :: b' => (x =? y)%N && bytes_eqb a' b'
+  | x :: a', y :: b' => (x =? y)%N && ts_bytes_eqb a' b'
   | _, _ => false
   end.
 
-Definition o_deliver (cfg : tcfg) (s : sim) (data : list N) : sim * list tobs :=
-  match parse_req data with
-  | QConfirm => (s, [])                   (* CONFIRM from idle: ignored *)
-  | QUnsupported => (s, [OUnsupported])
-  | QReq r =>
-      let o := s_o s in
+Definition o_deliver (cfg : ts_cfg) (s : ts_sim) (data : list N) : ts_sim * list ts_obs :=
+  match ts_parse_req data with
+  | TsQConfirm => (s, [])                   (* CONFIRM from idle: ignored *)
+  | TsQUnsupported => (s, [TsUnsupported])
+  | TsQReq r =>
+      let o := tss_o s in
       let seq := (match data with c :: _ => c mod 16 | [] => 0 end)%N in
-      let repeat := match os_last o with
-                    | Some l => if bytes_eqb (ol_req l) data then Some l else None
+      let repeat := match tos_last o with
+                    | Some l => if ts_bytes_eqb (ol_req l) data then Some l else None
                     | None => None
                     end in
       match repeat with
       | Some l =>
           (* duplicate request: the stored response is sent again, the current indications or-ed in *)
-          let iin1 := N.lor (ol_iin1 l) (need_bit (o_need (os_time o))) in
-          let o' := {| os_time := os_time o;
-                       os_last := Some {| ol_req := data; ol_seq := ol_seq l; ol_iin1 := iin1;
+          let iin1 := N.lor (ol_iin1 l) (ts_need_bit (to_need (tos_time o))) in
+          let o' := {| tos_time := tos_time o;
+                       tos_last := Some {| ol_req := data; ol_seq := ol_seq l; ol_iin1 := iin1;
                                           ol_iin2 := ol_iin2 l; ol_objs := ol_objs l |} |} in
-          outstation_wrote (set_o s o') (enc_resp (ol_seq l) iin1 (ol_iin2 l) (ol_objs l))
+          ts_outstation_wrote (ts_set_o s o') (ts_enc_resp (ol_seq l) iin1 (ol_iin2 l) (ol_objs l))
       | None =>
-          let res := o_handle (tc_mode cfg) (s_rep s) (os_time o) (s_now s) r in
-          let iin1 := need_bit (o_need (or_st res)) in
+          let res := o_handle (tsc_mode cfg) (tss_rep s) (tos_time o) (tss_now s) r in
+          let iin1 := ts_need_bit (to_need (or_st res)) in
           let iin2 := Z.to_N (or_iin2 res) in
-          let objs := match or_delay res with Some d => delay_objs d | None => [] end in
-          let o' := {| os_time := or_st res;
-                       os_last := Some {| ol_req := data; ol_seq := seq; ol_iin1 := iin1;
+          let objs := match or_delay res with Some d => ts_delay_objs d | None => [] end in
+          let o' := {| tos_time := or_st res;
+                       tos_last := Some {| ol_req := data; ol_seq := seq; ol_iin1 := iin1;
                                           ol_iin2 := iin2; ol_objs := objs |} |} in
-          let '(s1, obs) := outstation_wrote (set_o s o') (enc_resp seq iin1 iin2 objs) in
+          let '(s1, obs) := ts_outstation_wrote (ts_set_o s o') (ts_enc_resp seq iin1 iin2 objs) in
           (s1, match or_written res with
-               | Some v => OWritten (s_now s) v :: obs
+               | Some v => TsWritten (tss_now s) v :: obs
                | None => obs
                end)
       end
@@ -480,68 +480,68 @@ Definition o_deliver (cfg : tcfg) (s : sim) (data : list N) : sim * list tobs :=
 
 (* ---- the engine's `run` ---- *)
 
-Fixpoint min_arrival (q : list msg) : option Z :=
+Fixpoint ts_min_arrival (q : list ts_msg) : option Z :=
   match q with
   | [] => None
-  | m :: q' => match min_arrival q' with
+  | m :: q' => match ts_min_arrival q' with
                | None => Some (mg_arrive m)
                | Some a => Some (Z.min (mg_arrive m) a)
                end
   end.
 
 (* first message (in order of sending) that arrives at instant a *)
-Fixpoint take_at (a : Z) (q : list msg) : option (msg * list msg) :=
+Fixpoint ts_take_at (a : Z) (q : list ts_msg) : option (ts_msg * list ts_msg) :=
   match q with
   | [] => None
   | m :: q' => if mg_arrive m =? a then Some (m, q')
-               else match take_at a q' with
+               else match ts_take_at a q' with
                     | Some (x, r) => Some (x, m :: r)
                     | None => None
                     end
   end.
 
-Definition set_queue (c : chan) (q : list msg) : chan :=
+Definition ts_set_queue (c : ts_chan) (q : list ts_msg) : ts_chan :=
   {| ch_fwd := ch_fwd c; ch_back := ch_back c; ch_hold := ch_hold c;
      ch_drop_fwd := ch_drop_fwd c; ch_drop_back := ch_drop_back c;
      ch_dup_fwd := ch_dup_fwd c; ch_dup_back := ch_dup_back c;
      ch_tamper := ch_tamper c; ch_queue := q |}.
 
-Definition deliver_msg (cfg : tcfg) (s : sim) (m : msg) : sim * list tobs :=
+Definition ts_deliver_msg (cfg : ts_cfg) (s : ts_sim) (m : ts_msg) : ts_sim * list ts_obs :=
   if mg_to_master m then m_deliver cfg s (mg_data m) else o_deliver cfg s (mg_data m).
 
-Definition m_timeout (cfg : tcfg) (s : sim) : sim * list tobs :=
-  match m_cur (s_m s) with
-  | Some t => m_finish cfg s (mt_token t) (Some ETimeout)
+Definition m_timeout (cfg : ts_cfg) (s : ts_sim) : ts_sim * list ts_obs :=
+  match tm_cur (tss_m s) with
+  | Some t => m_finish cfg s (mt_token t) (Some TsETimeout)
   | None => (s, [])
   end.
 
-Fixpoint run_loop (fuel : nat) (cfg : tcfg) (target : Z) (s : sim) : sim * list tobs :=
+Fixpoint ts_run_loop (fuel : nat) (cfg : ts_cfg) (target : Z) (s : ts_sim) : ts_sim * list ts_obs :=
   match fuel with
-  | O => (s, [OStall])
+  | O => (s, [TsStall])
   | S f =>
-      let na := match min_arrival (ch_queue (s_c s)) with
+      let na := match ts_min_arrival (ch_queue (tss_c s)) with
                 | Some a => if a <=? target then Some a else None
                 | None => None
                 end in
-      let dl := match m_cur (s_m s) with
+      let dl := match tm_cur (tss_m s) with
                 | Some t => if mt_deadline t <=? target then Some (mt_deadline t) else None
                 | None => None
                 end in
-      let do_deadline (d : Z) (amb : bool) : sim * list tobs :=
-        let '(s1, o1) := m_timeout cfg (set_now s (Z.max (s_now s) d)) in
-        let '(s2, o2) := run_loop f cfg target s1 in
-        (s2, (if amb then [OAmbiguous] else []) ++ o1 ++ o2) in
-      let do_arrival (a : Z) : sim * list tobs :=
-        match take_at a (ch_queue (s_c s)) with
-        | None => (s, [OStall])
+      let do_deadline (d : Z) (amb : bool) : ts_sim * list ts_obs :=
+        let '(s1, o1) := m_timeout cfg (ts_set_now s (Z.max (tss_now s) d)) in
+        let '(s2, o2) := ts_run_loop f cfg target s1 in
+        (s2, (if amb then [TsAmbiguous] else []) ++ o1 ++ o2) in
+      let do_arrival (a : Z) : ts_sim * list ts_obs :=
+        match ts_take_at a (ch_queue (tss_c s)) with
+        | None => (s, [TsStall])
         | Some (m, q') =>
-            let s0 := set_now (set_chan s (set_queue (s_c s) q')) (Z.max (s_now s) a) in
-            let '(s1, o1) := deliver_msg cfg s0 m in
-            let '(s2, o2) := run_loop f cfg target s1 in
+            let s0 := ts_set_now (ts_set_chan s (ts_set_queue (tss_c s) q')) (Z.max (tss_now s) a) in
+            let '(s1, o1) := ts_deliver_msg cfg s0 m in
+            let '(s2, o2) := ts_run_loop f cfg target s1 in
             (s2, o1 ++ o2)
         end in
       match na, dl with
-      | None, None => (set_now s target, [])
+      | None, None => (ts_set_now s target, [])
       | Some a, None => do_arrival a
       | None, Some d => do_deadline d false
       | Some a, Some d => if d <? a then do_deadline d false
@@ -550,42 +550,42 @@ Fixpoint run_loop (fuel : nat) (cfg : tcfg) (target : Z) (s : sim) : sim * list 
       end
   end.
 
-Inductive top :=
-| OpSync (tok : N) | OpFwd (d : Z) | OpBack (d : Z) | OpHold (d : Z) | OpProc (d : Z)
-| OpDrop (back : bool) | OpDup (back : bool) (extra : Z)
-| OpTamper (t : tamper) | OpClock (on : bool) | OpInject (data : list N) | OpRun (ms : Z).
+Inductive ts_op :=
+| TsOpSync (tok : N) | TsOpFwd (d : Z) | TsOpBack (d : Z) | TsOpHold (d : Z) | TsOpProc (d : Z)
+| TsOpDrop (back : bool) | TsOpDup (back : bool) (extra : Z)
+| TsOpTamper (t : ts_tamper) | TsOpClock (on : bool) | TsOpInject (data : list N) | TsOpRun (ms : Z).
 
-Definition upd_chan (c : chan) (o : top) : chan :=
+Definition ts_upd_chan (c : ts_chan) (o : ts_op) : ts_chan :=
   match o with
-  | OpFwd d => {| ch_fwd := d; ch_back := ch_back c; ch_hold := ch_hold c;
+  | TsOpFwd d => {| ch_fwd := d; ch_back := ch_back c; ch_hold := ch_hold c;
                   ch_drop_fwd := ch_drop_fwd c; ch_drop_back := ch_drop_back c;
                   ch_dup_fwd := ch_dup_fwd c; ch_dup_back := ch_dup_back c;
                   ch_tamper := ch_tamper c; ch_queue := ch_queue c |}
-  | OpBack d => {| ch_fwd := ch_fwd c; ch_back := d; ch_hold := ch_hold c;
+  | TsOpBack d => {| ch_fwd := ch_fwd c; ch_back := d; ch_hold := ch_hold c;
                    ch_drop_fwd := ch_drop_fwd c; ch_drop_back := ch_drop_back c;
                    ch_dup_fwd := ch_dup_fwd c; ch_dup_back := ch_dup_back c;
                    ch_tamper := ch_tamper c; ch_queue := ch_queue c |}
-  | OpHold d => {| ch_fwd := ch_fwd c; ch_back := ch_back c; ch_hold := d;
+  | TsOpHold d => {| ch_fwd := ch_fwd c; ch_back := ch_back c; ch_hold := d;
                    ch_drop_fwd := ch_drop_fwd c; ch_drop_back := ch_drop_back c;
                    ch_dup_fwd := ch_dup_fwd c; ch_dup_back := ch_dup_back c;
                    ch_tamper := ch_tamper c; ch_queue := ch_queue c |}
-  | OpDrop false => {| ch_fwd := ch_fwd c; ch_back := ch_back c; ch_hold := ch_hold c;
+  | TsOpDrop false => {| ch_fwd := ch_fwd c; ch_back := ch_back c; ch_hold := ch_hold c;
                        ch_drop_fwd := (ch_drop_fwd c + 1)%N; ch_drop_back := ch_drop_back c;
                        ch_dup_fwd := ch_dup_fwd c; ch_dup_back := ch_dup_back c;
                        ch_tamper := ch_tamper c; ch_queue := ch_queue c |}
-  | OpDrop true => {| ch_fwd := ch_fwd c; ch_back := ch_back c; ch_hold := ch_hold c;
+  | TsOpDrop true => {| ch_fwd := ch_fwd c; ch_back := ch_back c; ch_hold := ch_hold c;
                       ch_drop_fwd := ch_drop_fwd c; ch_drop_back := (ch_drop_back c + 1)%N;
                       ch_dup_fwd := ch_dup_fwd c; ch_dup_back := ch_dup_back c;
                       ch_tamper := ch_tamper c; ch_queue := ch_queue c |}
-  | OpDup false e => {| ch_fwd := ch_fwd c; ch_back := ch_back c; ch_hold := ch_hold c;
+  | TsOpDup false e => {| ch_fwd := ch_fwd c; ch_back := ch_back c; ch_hold := ch_hold c;
                         ch_drop_fwd := ch_drop_fwd c; ch_drop_back := ch_drop_back c;
                         ch_dup_fwd := Some e; ch_dup_back := ch_dup_back c;
                         ch_tamper := ch_tamper c; ch_queue := ch_queue c |}
-  | OpDup true e => {| ch_fwd := ch_fwd c; ch_back := ch_back c; ch_hold := ch_hold c;
+  | TsOpDup true e => {| ch_fwd := ch_fwd c; ch_back := ch_back c; ch_hold := ch_hold c;
                        ch_drop_fwd := ch_drop_fwd c; ch_drop_back := ch_drop_back c;
                        ch_dup_fwd := ch_dup_fwd c; ch_dup_back := Some e;
                        ch_tamper := ch_tamper c; ch_queue := ch_queue c |}
-  | OpTamper t => {| ch_fwd := ch_fwd c; ch_back := ch_back c; ch_hold := ch_hold c;
+  | TsOpTamper t => {| ch_fwd := ch_fwd c; ch_back := ch_back c; ch_hold := ch_hold c;
                      ch_drop_fwd := ch_drop_fwd c; ch_drop_back := ch_drop_back c;
                      ch_dup_fwd := ch_dup_fwd c; ch_dup_back := ch_dup_back c;
                      ch_tamper := ch_tamper c ++ [t]; ch_queue := ch_queue c |}
@@ -595,47 +595,47 @@ Definition upd_chan (c : chan) (o : top) : chan :=
 (* events one `run` can process: every message delivered or deadline fired consumes one unit;
    a synchronisation sends at most two requests (each possibly duplicated, each answered), an
    injected fragment causes at most one confirm *)
-Definition run_fuel (s : sim) : nat :=
-  (64 + 16 * (length (s_pend s) + length (m_q (s_m s)) + length (ch_queue (s_c s))))%nat.
+Definition ts_run_fuel (s : ts_sim) : nat :=
+  (64 + 16 * (length (tss_pend s) + length (tm_q (tss_m s)) + length (ch_queue (tss_c s))))%nat.
 
-Definition do_op (cfg : tcfg) (s : sim) (o : top) : sim * list tobs :=
+Definition ts_do_op (cfg : ts_cfg) (s : ts_sim) (o : ts_op) : ts_sim * list ts_obs :=
   match o with
-  | OpSync tok => (set_pend s (s_pend s ++ [tok]), [])
-  | OpProc d => ({| s_now := s_now s; s_on := s_on s; s_rep := Z.min d 65535; s_pend := s_pend s;
-                    s_m := s_m s; s_o := s_o s; s_c := s_c s |}, [])
-  | OpClock b => ({| s_now := s_now s; s_on := b; s_rep := s_rep s; s_pend := s_pend s;
-                     s_m := s_m s; s_o := s_o s; s_c := s_c s |}, [])
-  | OpInject data =>
-      let '(s1, obs) := m_deliver cfg s data in (s1, OInj (s_now s) data :: obs)
-  | OpRun ms =>
-      let fuel := run_fuel s in
+  | TsOpSync tok => (ts_set_pend s (tss_pend s ++ [tok]), [])
+  | TsOpProc d => ({| tss_now := tss_now s; tss_on := tss_on s; tss_rep := Z.min d 65535; tss_pend := tss_pend s;
+                    tss_m := tss_m s; tss_o := tss_o s; tss_c := tss_c s |}, [])
+  | TsOpClock b => ({| tss_now := tss_now s; tss_on := b; tss_rep := tss_rep s; tss_pend := tss_pend s;
+                     tss_m := tss_m s; tss_o := tss_o s; tss_c := tss_c s |}, [])
+  | TsOpInject data =>
+      let '(s1, obs) := m_deliver cfg s data in (s1, TsInj (tss_now s) data :: obs)
+  | TsOpRun ms =>
+      let fuel := ts_run_fuel s in
       (* the pending synchronize_time calls reach the master now, in order *)
-      let s0 := set_pend (set_m s {| m_seq := m_seq (s_m s); m_cur := m_cur (s_m s);
-                                     m_q := m_q (s_m s) ++ s_pend s |}) [] in
-      let '(s1, o1) := m_try_start (S (length (m_q (s_m s0)))) cfg s0 in
-      let '(s2, o2) := run_loop fuel cfg (s_now s + ms) s1 in
+      let s0 := ts_set_pend (ts_set_m s {| tm_seq := tm_seq (tss_m s); tm_cur := tm_cur (tss_m s);
+                                     tm_q := tm_q (tss_m s) ++ tss_pend s |}) [] in
+      let '(s1, o1) := m_try_start (S (length (tm_q (tss_m s0)))) cfg s0 in
+      let '(s2, o2) := ts_run_loop fuel cfg (tss_now s + ms) s1 in
       (s2, o1 ++ o2)
-  | _ => (set_chan s (upd_chan (s_c s) o), [])
+  | _ => (ts_set_chan s (ts_upd_chan (tss_c s) o), [])
   end.
 
-Fixpoint do_ops (cfg : tcfg) (s : sim) (ops : list top) : sim * list tobs :=
+Fixpoint ts_do_ops (cfg : ts_cfg) (s : ts_sim) (ops : list ts_op) : ts_sim * list ts_obs :=
   match ops with
   | [] => (s, [])
   | o :: rest =>
-      let '(s1, o1) := do_op cfg s o in
-      let '(s2, o2) := do_ops cfg s1 rest in
+      let '(s1, o1) := ts_do_op cfg s o in
+      let '(s2, o2) := ts_do_ops cfg s1 rest in
       (s2, o1 ++ o2)
   end.
 
-Definition init_sim (cfg : tcfg) : sim :=
-  {| s_now := 0; s_on := true; s_rep := 0; s_pend := [];
-     s_m := {| m_seq := 0%N; m_cur := None; m_q := [] |};
-     s_o := {| os_time := {| o_rec := None;
-                             o_need := match tc_mode cfg with NClear => false | _ => true end |};
-               os_last := None |};
-     s_c := {| ch_fwd := 0; ch_back := 0; ch_hold := 0; ch_drop_fwd := 0%N; ch_drop_back := 0%N;
+Definition ts_init_sim (cfg : ts_cfg) : ts_sim :=
+  {| tss_now := 0; tss_on := true; tss_rep := 0; tss_pend := [];
+     tss_m := {| tm_seq := 0%N; tm_cur := None; tm_q := [] |};
+     tss_o := {| tos_time := {| to_rec := None;
+                             to_need := match tsc_mode cfg with TsNClear => false | _ => true end |};
+               tos_last := None |};
+     tss_c := {| ch_fwd := 0; ch_back := 0; ch_hold := 0; ch_drop_fwd := 0%N; ch_drop_back := 0%N;
                ch_dup_fwd := None; ch_dup_back := None; ch_tamper := []; ch_queue := [] |} |}.
 
-Definition run_tsync (cfg : tcfg) (ops : list top) : list tobs :=
-  let '(s, obs) := do_ops cfg (init_sim cfg) ops in
-  obs ++ [OClock (s_now s) (clock (s_on s) (tc_c0 cfg) (s_now s))].
+Definition run_tsync (cfg : ts_cfg) (ops : list ts_op) : list ts_obs :=
+  let '(s, obs) := ts_do_ops cfg (ts_init_sim cfg) ops in
+  obs ++ [TsClock (tss_now s) (ts_clock (tss_on s) (tsc_c0 cfg) (tss_now s))].
